@@ -12,6 +12,19 @@ FIX = os.path.join(VERIF, "fixtures")
 _INDEX = None
 
 
+def tables_digest():
+    """Digest of the module-level tables the decoder reads (decoding must not leave traces in them)."""
+    import vc2_data_tables as T
+
+    return repr((sorted((tuple(int(x) for x in k), sorted((l, sorted(b.items())) for l, b in v.items())) for k, v in T.QUANTISATION_MATRICES.items()),
+                 sorted((int(k), tuple(v)) for k, v in T.PRESET_SIGNAL_RANGES.items()),
+                 sorted((int(k), tuple(v)) for k, v in T.PRESET_FRAME_RATES.items()),
+                 sorted((int(k), tuple(v)) for k, v in T.BASE_VIDEO_FORMAT_PARAMETERS.items())))
+
+
+PRISTINE_TABLES = tables_digest()  # taken at import, before anything has been decoded in this process (or its parent)
+
+
 def fixture_index():
     global _INDEX
     if _INDEX is None:
@@ -207,5 +220,9 @@ def verify_fixtures(prop):
         if got != meta["expect"]:
             out.append({"label": "fixture-verdict-changed", "key": "%s:fixture:%s:%s" % (prop, name, got),
                         "detail": "fixture %s (%s) is recorded as %s but the plain decoder now gives %r" % (name, meta["description"], meta["expect"], cls),
+                        "inputs": {"fixture": name}})
+        if tables_digest() != PRISTINE_TABLES and not any(o["label"] == "module-level-table-modified" for o in out):
+            out.append({"label": "module-level-table-modified", "key": "%s:module-level-table-modified" % prop,
+                        "detail": "decoding fixture %s changed a module-level table (quantisation matrices / presets / base formats)" % name,
                         "inputs": {"fixture": name}})
     return out
